@@ -102,16 +102,19 @@ structure Parsed where
   implSt : St
   implDump : String
   d0 : String
+  verify : Option String := none     -- what a store verification in repair mode did to the stored hashes ("verify=same" expected)
 
 def parseCase (args : List String) (impl : String) : Option Parsed :=
   match args, impl.splitOn " ## " with
   | [ops], [d0, res, d1] => do
     pure { ops := ← parseOps ops, st0 := ← parseDump d0, implRes := res.splitOn ",", implSt := ← parseDump d1, implDump := d1, d0 := d0 }
+  | [ops], [d0, res, d1, v] => do
+    pure { ops := ← parseOps ops, st0 := ← parseDump d0, implRes := res.splitOn ",", implSt := ← parseDump d1, implDump := d1, d0 := d0, verify := some v }
   | _, _ => none
 
 def modelObs (p : Parsed) : String × St × List String :=
   let (st, rs) := runOps p.st0 p.ops
-  (p.d0 ++ " ## " ++ ",".intercalate rs ++ " ## " ++ dumpStr st, st, rs)
+  (p.d0 ++ " ## " ++ ",".intercalate rs ++ " ## " ++ dumpStr st ++ (if p.verify.isSome then " ## verify=same" else ""), st, rs)
 
 /-! ### C01 oracle: last write wins per identity, computed from the deliveries alone -/
 def newestPerIdentity (pts : List Store.Point) : List Store.Point :=
